@@ -461,7 +461,7 @@ void run_idle_sweep(Judge& j, uint64_t nbase, int max_idle, const std::vector<in
             const std::vector<int>& kinds = pass == 0 ? term_kinds : handler_kinds;
             for (int ip = 1; ip <= lim; ++ip)
                 for (int tk : kinds) {
-                    if (pass == 2 && tk > 2 && tk != 4 && tk != 5 && tk != 10 && tk != 11) continue;
+                    if (pass == 2 && tk > 2 && tk != 4 && tk != 5 && tk != 10 && tk != 11 && tk != 12) continue;
                     if (dbg) { if ((dbg_pass >= 0 && pass != dbg_pass) || (dbg_ip >= 0 && ip != dbg_ip) || (dbg_tk >= 0 && tk != dbg_tk)) continue; }
                     else if (int(idx++ % ctx.nshards) != ctx.shard) continue;
                     Scenario sc = base; sc.family = pass == 0 ? "idle-sweep" : pass == 1 ? "handler-sweep" : "timer-sweep"; sc.index = bi * 1000000 + ip * 10 + tk + (pass ? 500000 : 0) + (pass == 2 ? 200000 : 0);
@@ -494,6 +494,7 @@ void run_idle_sweep(Judge& j, uint64_t nbase, int max_idle, const std::vector<in
                             }
                             break;
                         }
+                        case 12: a.kind = Action::publish; a.qos = (int)rng.range(1, 2); a.topic = "edge"; a.payload = "x"; break;   // (not terminal) a request issued at this very point
                         case 11: a.kind = Action::replace; break;   // move-assignment "cancels this client first"
                         case 5: a.kind = Action::disconnect; a.rc = 4; { ref::Prop u; u.id = 0x1F; u.s1 = rng.chance(1, 2) ? "bye" : "bye, and thanks for all the fish: a reason string that is longer than a small packet limit"; a.props.push_back(u); if (rng.chance(1, 2)) { ref::Prop q; q.id = 0x26; q.s1 = "why"; q.s2 = "because"; a.props.push_back(q); } } break;
                         case 6: {   // a request and the terminal action in the same turn: the request's write completion is already queued
@@ -1399,6 +1400,9 @@ int run_families(const FamilyCtx& ctx, vu::Result& res) {
         run_sweep(j, T ? 6 : 3, false, {0});
         Knobs k = knobs_for("c03-mix");
         run_mix(j, k, "c03-mix", T ? 150000 : 2500);
+        // acknowledgements the client has to reject (reason codes MQTT 5 does not list for them): the retransmission that follows
+        // the DISCONNECT is a retransmission like any other (DUP, same bytes, same id)
+        run_mix(j, knobs_for("c01-hostile-rc"), "c01-hostile-rc", T ? 40000 : 800);
     } else if (P == "C04") {
         run_sweep(j, T ? 6 : 6, false, {0}, /*only_inbound=*/true);
         Knobs k = knobs_for("c04-mix");
@@ -1412,6 +1416,9 @@ int run_families(const FamilyCtx& ctx, vu::Result& res) {
         Knobs k = knobs_for("c06-mix");
         run_mix(j, k, "c06-mix", T ? 150000 : 3000);
         run_mix(j, knobs_for("c06-rm-change"), "c06-rm-change", T ? 60000 : 1500);
+        // a publish initiated at every handler boundary (between a transport swap and the resend pass, for instance) and at
+        // every idle point of seeded bases with connection losses: it must not overtake the retransmissions of older ones
+        run_idle_sweep(j, T ? 20 : 4, T ? 150 : 60, {12}, T ? 400 : 150, {12}, 0);
     } else if (P == "C07") {
         Knobs k = knobs_for("c07-mix");
         run_mix(j, k, "c07-mix", T ? 150000 : 3000);
